@@ -140,6 +140,19 @@ structure Route where
   rid : Nat
 deriving DecidableEq, Repr
 
+/-- The registered routes as the oracle reads the script: route `i` is registration `i`, its pattern
+text is the plain concatenation of the group prefixes and the path, parsed by `parsePattern`.
+`none` when some pattern is outside the vocabulary of the property. -/
+def specRoutesFrom : Nat → List Reg → Option (List Route)
+  | _, [] => some []
+  | i, g :: gs =>
+    let text := g.groups.foldr (· ++ ·) g.path
+    match parsePattern text, specRoutesFrom (i + 1) gs with
+    | some p, some rest => some ({ method := g.method, text := text, pat := p, cons := g.cons, rid := i } :: rest)
+    | _, _ => none
+
+def specRoutes (script : List Reg) : Option (List Route) := specRoutesFrom 0 script
+
 /-- every constraint of the route accepts the value bound to its parameter -/
 def consOK (sat : Nat → Bytes → Bool) (cons : List (Bytes × Nat)) (b : List (Bytes × Bytes)) : Bool :=
   cons.all fun (n, cid) =>
